@@ -96,6 +96,42 @@ pub mod shim {
         let t = set16(s, o, v);
         assert(t[o] == (v / 256) as u8 && t[o + 1] == (v % 256) as u8);
     }
+    /// little-endian base-256 digits: the first n digits of x
+    pub open spec fn le_bytes(x: nat, n: nat) -> Seq<u8>
+        decreases n
+    {
+        if n == 0 { Seq::<u8>::empty() } else { seq![(x % 256) as u8] + le_bytes(x / 256, (n - 1) as nat) }
+    }
+    /// x / 256^k
+    pub open spec fn pdiv(x: nat, k: nat) -> nat
+        decreases k
+    {
+        if k == 0 { x } else { pdiv(x / 256, (k - 1) as nat) }
+    }
+    /*PROVED_IN:u_pnet*/ pub proof fn lemma_pdiv_step(x: nat, k: nat)
+        ensures pdiv(x, k + 1) == pdiv(x, k) / 256
+        decreases k
+    {
+        assert(pdiv(x, k + 1) == pdiv(x / 256, k));
+        if k > 0 {
+            lemma_pdiv_step(x / 256, (k - 1) as nat);
+            assert(pdiv(x, k) == pdiv(x / 256, (k - 1) as nat));
+        }
+    }
+    /*PROVED_IN:u_pnet*/ pub proof fn lemma_le_bytes_snoc(x: nat, k: nat)
+        ensures le_bytes(x, k + 1) == le_bytes(x, k).push((pdiv(x, k) % 256) as u8), le_bytes(x, k).len() == k
+        decreases k
+    {
+        if k == 0 {
+            assert(le_bytes(x, 1) =~= seq![(x % 256) as u8]);
+            assert(le_bytes(x, 0).push((x % 256) as u8) =~= seq![(x % 256) as u8]);
+        } else {
+            lemma_le_bytes_snoc(x / 256, (k - 1) as nat);
+            assert(le_bytes(x, k + 1) =~= seq![(x % 256) as u8] + le_bytes(x / 256, k));
+            assert(le_bytes(x, k) =~= seq![(x % 256) as u8] + le_bytes(x / 256, (k - 1) as nat));
+            assert(le_bytes(x, k + 1) =~= le_bytes(x, k).push((pdiv(x, k) % 256) as u8));
+        }
+    }
     pub open spec fn zeros(n: nat) -> Seq<u8> { Seq::new(n, |i: int| 0u8) }
 
     // ---------------------------------------------------------------- addresses
